@@ -35,7 +35,7 @@ SitePc(s) ==
     [] s = 80 -> {"idle"} [] s = 81 -> {"wst_swap"} [] s = 82 -> {"wsw_swap"} [] s \in {83, 84} -> {"wcas_try"} [] s = 85 -> {"wcast_try"}
     [] OTHER -> {"?"}
 
-Unsupported == {"give", "recv", "with_tag", "release_all", "clear_cells", "flush", "reactivate"}
+Unsupported == {"give", "recv", "release_all", "clear_cells"}
 
 \* observable agreement between the model state and a line
 ObsEq(r) ==
@@ -119,6 +119,9 @@ Api(t, r) ==
     [] n = "iter_next" -> IF a.tgt # 0 /\ it[t][a.tgt] > 0 THEN IterNext(t) /\ it'[t][a.tgt] = it[t][a.tgt] - 1 ELSE UNCHANGED vars
     [] n = "iter_drop" -> IF a.tgt # 0 /\ it[t][a.tgt] > 0 THEN IterEnd(t) /\ reg'[t].o = a.tgt /\ ~reg'[t].g ELSE UNCHANGED vars
     [] n = "iter_abort" -> IF a.tgt # 0 /\ it[t][a.tgt] > 0 THEN IterEnd(t) /\ reg'[t].o = a.tgt /\ reg'[t].g ELSE UNCHANGED vars
+    [] n = "reactivate" -> React(t)
+    [] n \in {"flush", "with_tag"} -> UNCHANGED vars    \* flush only schedules a collection (UnpinChoice is free anyway);
+                                                       \* the tag of a handle is not part of the model's state
     [] n = "pin" -> Pin(t)
     [] n = "unpin" -> Unpin(t)
     [] n = "collect" -> Collect(t)
@@ -135,7 +138,7 @@ Consume(r) ==
 SInit == l = 1 /\ Obs(Rec[1]) /\ TLCSet(1, 1) /\ TLCSet(2, <<>>)
 SNext == \/ /\ Settled(Rec[l]) /\ l < Len(Rec) /\ l' = l + 1 /\ Consume(Rec[l + 1])
          \/ /\ ~Settled(Rec[l]) /\ l' = l
-            /\ \E t \in Thr : ~(PcOk(Rec[l], t) /\ pc[t] \notin {"dec_pin", "unpin", "col", "rc_fin", "up_fin", "sn_fin", "wk_fin"}) /\ StrictSilent(t)
+            /\ \E t \in Thr : ~(PcOk(Rec[l], t) /\ pc[t] \notin {"dec_pin", "unpin", "col", "rc_fin", "up_fin", "sn_fin", "wk_fin", "react_pin"}) /\ StrictSilent(t)
 SSpec == SInit /\ [][SNext]_<<vars, l>>
 \* furthest settled line (one worker)
 Track == (Settled(Rec[l]) /\ l > TLCGet(1)) => (TLCSet(1, l) /\ TLCSet(2, <<pc, reg, mode, cret>>))
